@@ -51,12 +51,15 @@ def replay(ctx):
     else:
         kb = ctx.behaviours("data", "Gen_ContainerKeys", "Gen_ContainerKeys.cfg",
                             constants={"PartIds": ctx.pick(GEN_Q, GEN_T)}, timeout=1500)
-        wl = ctx.pick(6, 8)
+        # calls with two arguments, all builder types, branching (two builders derived from one)
         kb += ctx.behaviours("data", "Gen_ContainerKeys", "Gen_ContainerKeys.cfg",
-                             constants={"PartIds": WALK_IDS, "RawIds": '{"a", "e", "adr", "m80"}', "MaxBuilders": ctx.pick(4, 5),
-                                        "MaxNew": 3, "MaxArgs": 2, "MaxParts": 4, "MaxOps": wl, "Depth": wl,
-                                        "ProbeIds": PROBES},
-                             simulate="num=%d" % ctx.pick(300, 2000), depth=wl + 1, seed=ctx.seed, timeout=1500)
+                             constants={"PartIds": ctx.pick('{"e", "m80", "L56"}', '{"e", "z", "m80", "x81", "L55", "L56", "L256"}'),
+                                        "RawIds": '{"a", "adr"}', "MaxBuilders": 3, "MaxNew": 1, "MaxArgs": 2,
+                                        "MaxParts": 4, "MaxOps": 2, "Depth": 2}, timeout=1500)
+        # SplitKeys on crafted (truncated, non-minimal, list-tagged) inputs
+        kb += ctx.behaviours("data", "Gen_ContainerKeys", "Gen_ContainerKeys.cfg",
+                             constants={"PartIds": "{}", "RawIds": "{}", "MaxOps": 1, "Depth": 1, "ProbeIds": PROBES},
+                             timeout=600)
         # 4. container behaviours: all of depth 2 + random walks per key-builder kind
         cb = []
         for i, (bt, raw) in enumerate(KINDS):
@@ -67,7 +70,7 @@ def replay(ctx):
             wl = ctx.pick(16, 30)
             cb += ctx.behaviours("data", "Gen_Containers", "Gen_Containers.cfg",
                                  constants=dict(cs, MaxOps=wl, Depth=wl),
-                                 simulate="num=%d" % ctx.pick(250, 3000), depth=wl + 1, seed=ctx.seed + i,
+                                 simulate="num=%d" % ctx.pick(60, 600), depth=wl + 1, seed=ctx.seed + i,
                                  timeout=900)
     if kb:
         inp = ctx.path("in", "keys.ndjson")
@@ -89,7 +92,7 @@ def replay(ctx):
 def finish(ctx):
     return ctx.finish(
         rule="key case = one TLC-generated sequence of ToKey/NewHashKey/Append calls (all chains of 3 calls over "
-             "the part alphabet by BFS + random walks with 5 builders and SplitKeys probes), distinct by its "
+             "the part alphabet, all 2-call sequences with two-argument calls and two builders derived from one, SplitKeys probes), distinct by its "
              "(op,type,raw,from,parts) sequence; container case = one TLC-generated call sequence on 2 arrays, "
              "2 dictionaries and 2 variables sharing one store (all of depth 2 + random walks per key-builder "
              "kind), distinct by its call sequence and builder kind, non-trivial if it has >= 2 writes",
